@@ -110,7 +110,7 @@ def run(ck):
     ck.violation = limited
 
     # ================================================================== 1. synthetic dictionaries
-    ncases = 2400 if thorough else 640
+    ncases = 4000 if thorough else 640
     cases = []
     for i in range(ncases):
         fl = rng.choice(['regular', 'regular', 'some', 'nones', 'wide', 'runlike', 'runlike_alias'])
@@ -356,9 +356,45 @@ def run(ck):
                          match={'kind': 'correspondence', 'what': 'hooks' if not ok_h else 'return_stats'}, no_input=True)
     ck.obligation('Hooks (14 callbacks, add_to_stats, increment_stats) and Controller.return_stats: model = implementation on %d scripts' % len(hcases), nb == 0)
 
+    # ================================================================== 2c. DefaultHooks.post_step vs default_post_step
+    from pySDC.implementations.hooks.default_hook import DefaultHooks
+    dcases = []
+    for _ in range(150 if thorough else 50):
+        h = DefaultHooks()
+        svs = []
+        for _ in range(rng.randint(1, 8)):
+            t, dt = rng.choice([0.0, 0.1, 0.2, 0.30000000000000004]), rng.choice([0.1, 0.2, 0.05])
+            slot, it, sw, restart, nrr, res, rank = rng.randint(0, 2), rng.randint(1, 3), 1, rng.random() < 0.4, rng.randint(0, 2), rng.randint(0, 50), rng.choice([0, None])
+            lvl = types.SimpleNamespace(time=t, dt=dt, level_index=0, status=types.SimpleNamespace(sweep=sw, residual=res),
+                                        sweep=types.SimpleNamespace(rank=rank))
+            step = types.SimpleNamespace(levels=[lvl], status=types.SimpleNamespace(slot=slot, iter=it, get=(
+                lambda key, default=None, d={'restart': restart, 'restarts_in_a_row': nrr}: d.get(key, default))))
+            h.post_step(step, 0)
+            svs.append('(SV %d %s %s %s 0 %d %d %s (J %d) %d)' % (slot, L.oz_lit(rank), L.time_lit(t)[3:-1].join(['(tz ', ')']) if False else
+                       '(tz %s %s)' % tuple(zlit(x) for x in L.float_to_dy(t)), '(tz %s %s)' % tuple(zlit(x) for x in L.float_to_dy(t + dt)),
+                       it, sw, 'true' if restart else 'false', nrr, res))
+        dcases.append((svs, [(k, int(v)) for k, v in h.return_stats().items()]))
+    txt = L.HEADER + 'Definition dc : list (list step_view * dict Z) := %s.\n' % coq_list(
+        ['(%s, %s)' % (coq_list(svs), L.dict_lit(d)) for svs, d in dcases])
+    txt += "Eval vm_compute in map (fun '(svs, d) => dict_eqb (h_stats (default_run svs)) d) dc.\n"
+    rc, out = ck.coqc(ck.write_gen('DefaultHooks.v', txt), timeout=600)
+    if rc != 0:
+        ck.obligation('DefaultHooks cases evaluate', False, out[-1500:])
+        ck.violation('generated DefaultHooks cases do not compile', {'log': out[-3000:]}, match={'kind': 'gen'}, no_input=True)
+        return
+    dv = parse_coq_value(eval_outputs(out)[0])
+    nb = 0
+    for (svs, d), ok in zip(dcases, dv):
+        ck.case(key=('default_hook', repr(svs)), nontrivial=True)
+        if not ok:
+            nb += 1
+            ck.violation('DefaultHooks.post_step differs from its model default_post_step on a sequence of stub steps',
+                         {'step_views': svs, 'impl': items_repr(d)}, match={'kind': 'correspondence', 'what': 'DefaultHooks.post_step'}, no_input=True)
+    ck.obligation('DefaultHooks.post_step: model = implementation on %d step sequences' % len(dcases), nb == 0)
+
     # ================================================================== 3. real runs
     import random
-    cfgs = gen_configs(random.Random('C14-runs:%d' % ck.seed), 36 if thorough else 14)
+    cfgs = gen_configs(random.Random('C14-runs:%d' % ck.seed), 60 if thorough else 14)
     agg = {}      # match-key -> (what, replay, match)
     run_infos = []
     coq_parts = []
